@@ -11,6 +11,7 @@ R5 offsets: index value = offset before the block's bytes were added; pending_of
    the initial file offset and grows by exactly the bytes written.
 D  rests on: C16 (the format's integers are these codecs); C17 (the format's checksum is this function) - re-run here as <id>.D.<rule>.
 R7 container contract (rules/vecrule.py): libmy/vector.h keeps its invariants, element preservation, post-conditions and memory safety in every scenario (every emitted byte passes through a ubuf).
+R8 block builder under tight buffers (rules/bbrule.py): with the entry buffer tightened to size + d bytes (d = 0..11, 0..23 thorough) before every add and before finish, every write stays inside the allocation and the finished size is entries + 4 per restart + 4.
 """
 import re
 from .common import *
@@ -299,6 +300,10 @@ def run(ctx, res):
     # ---- properties this one rests on (re-run here, labelled <this>.D.<rule>) ------------------
     depends(ctx, res, 'C16', None, "the format's integers are these codecs")
     depends(ctx, res, 'C17', None, "the format's checksum is this function")
+
+    # ---- block builder under tight buffers
+    from . import bbrule
+    bbrule.check(ctx, res, "C09.R8")
 
     # ---- container contract ---------------------------------------------------------------------
     from . import vecrule
